@@ -116,6 +116,9 @@ def sample_variants(rng, cl, singles, n):
     if not singles:
         return out
     gaps = [s for s in singles if s[0] == "gap"]
+    # gaps inside dotted names are mostly rejected (or re-read by the parser, D32): keep them for the single rewrites, make
+    # them rare inside larger sets so that one such gap does not void the whole variant
+    dotted = {s[1] for s in gaps if cl.gaps[s[1]] == "" and "." in (cl.toks[s[1] - 1][1], cl.toks[s[1]][1])}
     cases = [s for s in singles if s[0] == "case"]
     quotes = [s for s in singles if s[0] == "quote"]
     semis = [s for s in singles if s[0] == "semi"]
@@ -126,10 +129,12 @@ def sample_variants(rng, cl, singles, n):
             pools = [p for p in (gaps, gaps, cases, quotes, semis) if p]
             out.append([rng.choice(rng.choice(pools))])
         elif r < 0.55:
-            out.append(dedupe([rng.choice(singles) for _ in range(rng.randrange(2, 6))]))
+            pick = [rng.choice(singles) for _ in range(rng.randrange(2, 6))]
+            out.append(dedupe([s for s in pick if not (s[0] == "gap" and s[1] in dotted and rng.random() < 0.8)]))
         elif r < 0.85:
             p = rng.choice([0.2, 0.5, 0.9])
-            rw = [s for s in singles if s[0] != "semi" and rng.random() < p / (5 if s[0] == "gap" else 3 if s[0] == "case" else 2)]
+            rw = [s for s in singles if s[0] != "semi" and rng.random() < p / (5 if s[0] == "gap" else 3 if s[0] == "case" else 2)
+                  and not (s[0] == "gap" and s[1] in dotted and rng.random() < 0.97)]
             if semis and rng.random() < 0.5:
                 rw.append(rng.choice(semis))
             out.append(dedupe(rw))
@@ -139,7 +144,7 @@ def sample_variants(rng, cl, singles, n):
             which = rng.choice(["gaps", "kw", "ident", "quotes", "all"])
             rw = []
             if which in ("gaps", "all"):
-                rw += [s for s in gaps if s[2] == f and (cl.gaps[s[1]] != "" or rng.random() < 0.3)]
+                rw += [s for s in gaps if s[2] == f and (cl.gaps[s[1]] != "" or rng.random() < 0.3) and s[1] not in dotted]
             if which in ("kw", "all"):
                 rw += [s for s in cases if s[2] == m and cl.cls[s[1]] == "kw"]
             if which in ("ident", "all"):
@@ -210,8 +215,10 @@ def work(job):
         out["singles_run"] = len(chosen)
     variants += sample_variants(rng, cl, singles, job.get("n", 0))
     base_c = canon(base, cl.ident_names(), strict)
+    prepared = (status, base, cl)
     seen = set()
-    sigs = set()
+    out["classes"] = {}
+    kept = set()
     for rw in variants:
         text = cl.apply(rw)
         if text == sql or text in seen:
@@ -228,10 +235,18 @@ def work(job):
         what = differs(base_c, canon(v, cl.ident_names(rw), strict))
         if what:
             out["n_fail"] += 1
-            sig = canon_json(cl.context(rw[0])) if len(rw) == 1 else "multi"
-            if sig not in sigs and len(out["failures"]) < 8:
-                sigs.add(sig)
-                out["failures"].append({"rewrites": rw, "what": what})
+            # minimise the rewrite set and name its class here, in the worker (the original is already prepared)
+            small = rw
+            if len(rw) > 1:
+                small = R.ddmin(rw, lambda x: pair_fails(sql, d, x, strict, prepared) is not None)
+            ctxs = [cl.context(r) for r in small]
+            cname = failure_class(sql, d, strict, prepared, small, ctxs)
+            key = cname or "UNCLASSIFIED"
+            out["classes"][key] = out["classes"].get(key, 0) + 1
+            sig = key if cname else canon_json([[{a: b for a, b in c.items() if a not in ("before", "after", "token")} for c in ctxs], what])
+            if sig not in kept and len(out["failures"]) < 12:
+                kept.add(sig)
+                out["failures"].append({"rewrites": small, "what": what, "class": cname, "context": ctxs})
     return out
 
 
@@ -262,14 +277,9 @@ def failure_class(sql, dialect, strict, prepared, small, ctxs):
             return False
         rest = path[i + 1:]
         return "bracketed" in rest and any(t in rest[rest.index("bracketed"):] for t in ("select_statement", "set_expression"))
-    toks = []
-    for r in small:
-        if r[0] == "gap":
-            toks += [r[1] - 1, r[1]]
-        elif r[0] in ("case", "quote"):
-            toks.append(r[1])
-    if toks and all(in_scalar_subquery(cl.parents[t]) for t in toks):
-        return "rewrite-inside-scalar-subquery-of-select-item"
+    if gaps_only and all(c["before_parent"] == "function_name" and c["after"] == "(" for c in ctxs) and \
+            all(in_scalar_subquery(cl.parents[r[1]]) for r in small):
+        return "function-call-gap-inside-scalar-subquery-of-select-item"
     return None
 
 
@@ -429,7 +439,8 @@ def minimise(inp, dialect, rewrites):
 
 
 def single_scan_fails(sql, dialect, strict, like):
-    """does some single rewrite of the same kind/filler/mode as `like` break the property on `sql`?  (predicate for AST shrinking)"""
+    """does some single rewrite of the same kind/filler/mode as `like` break the property on `sql` outside the listed classes?
+    (predicate for AST shrinking)"""
     prepared = prepare(sql, dialect)
     if prepared[0] != "ok":
         return None
@@ -440,42 +451,48 @@ def single_scan_fails(sql, dialect, strict, like):
     return None
 
 
-def shrink_ast(drv, inp, dialect, like):
+def shrink_ast(drv, inp, dialect, like, cls_name):
+    def still(cand_sql, cand):
+        s = single_scan_fails(cand_sql, dialect, not has_unaliased_expr(cand), like)
+        if s is None:
+            return None
+        prepared = prepare(cand_sql, dialect)
+        if failure_class(cand_sql, dialect, not has_unaliased_expr(cand), prepared, [s], [prepared[2].context(s)]) != cls_name:
+            return None
+        return s
+
     def pred(cand):
         sql = sqlcheck.model_eval(drv, [[cand]])[0]["sql"][0]
-        return single_scan_fails(sql, dialect, not has_unaliased_expr(cand), like) is not None
+        return still(sql, cand) is not None
     small = sqlcheck.shrink(inp["ast"], pred, budget=60)
     sql = sqlcheck.model_eval(drv, [[small]])[0]["sql"][0]
-    s = single_scan_fails(sql, dialect, not has_unaliased_expr(small), like)
+    s = still(sql, small)
     return (small, sql, [s]) if s else None
 
 
-def report_failure(chk, drv, inp, dialect, rewrites, seen_classes):
-    small, ctxs, prepared = minimise(inp, dialect, rewrites)
-    if small is None:
-        return   # not reproducible in this process (should not happen: everything is deterministic)
+def report_failure(chk, drv, inp, dialect, rec, seen_classes):
+    """a failing pair outside every listed finding: shrink (AST for generated statements) and record the violation"""
+    small, cls_name = rec["rewrites"], rec["class"]
     sql, ast = inp["sql"], inp["ast"]
+    prepared = prepare(sql, dialect)
+    if prepared[0] != "ok" or pair_fails(sql, dialect, small, inp["strict"], prepared) is None:
+        return   # not reproducible in this process (everything is deterministic: should not happen)
     if ast is not None and len(small) == 1 and small[0][0] != "semi" and drv is not None:
         try:
-            r = shrink_ast(drv, inp, dialect, small[0])
+            r = shrink_ast(drv, inp, dialect, small[0], cls_name)
         except Infra:
             r = None
         if r:
             ast, sql, small = r
             prepared = prepare(sql, dialect)
-            ctxs = [prepared[2].context(x) for x in small]
     cl = prepared[2]
+    ctxs = [cl.context(x) for x in small]
     variant = cl.apply(small)
     base = run_struct(sql, dialect)
     var = run_struct(variant, dialect)
     strict = (not has_unaliased_expr(ast)) if ast is not None else inp["strict"]
     what = differs(canon(base, cl.ident_names(), strict), canon(var, cl.ident_names(small), strict))
-    cls_name = failure_class(sql, dialect, strict, prepared, small, ctxs or [])
-    fid = finding_for(chk, cls_name)
-    key = canon_json([[{k: v for k, v in c.items() if k not in ("before", "after", "token")} for c in (ctxs or [])], what])
-    if fid:
-        chk.known(fid)
-        return
+    key = canon_json([[{k: v for k, v in c.items() if k not in ("before", "after", "token")} for c in ctxs], what, cls_name])
     if key in seen_classes:
         return
     seen_classes.add(key)
@@ -643,6 +660,7 @@ def run(chk):
     by_kind, rej_kind = collections.Counter(), collections.Counter()
     singles_total = singles_run = 0
     fails = []
+    class_counts = collections.Counter()
     for job, r in zip(jobs, results):
         inp = inputs[job["input"]]
         d = job["dialect"]
@@ -654,7 +672,9 @@ def run(chk):
             continue
         st.accept[d] += 1
         st.c["origin:" + inp["origin"].split("/")[0]] += 1
-        chk.count(canon_json([inp["sql"], d]), r["nontrivial"], n=r["variants"] + 1)
+        # one case per distinct text handed to the analyser: the original and each (distinct) variant of it
+        for vi in range(r["variants"] + 1):
+            chk.count((job["input"], d, vi), r["nontrivial"])
         for k, v in r["by_kind"].items():
             by_kind[k.split(":")[0]] += v
         for k, v in r["rej_by_kind"].items():
@@ -673,19 +693,34 @@ def run(chk):
                                       "model": inp["model"], "spec": inp["spec"]})
         if r["n_fail"]:
             st.c["pairs-failing"] += r["n_fail"]
+            for cname, n in r["classes"].items():
+                class_counts[cname] += n
             for f in r["failures"]:
-                fails.append((inp, d, f["rewrites"]))
+                fails.append((inp, d, f))
         elif st.c["status:ok"] % 60 == 1:
             chk.sample({"sql": inp["sql"][:300], "dialect": d, "variants_compared": r["variants"] - r["rejected"],
                         "rejected": r["rejected"], "origin": inp["origin"]})
     seen_classes = set()
-    for inp, d, rw in fails[:40]:
-        report_failure(chk, drv, inp, d, rw, seen_classes)
+    for cname, n in sorted(class_counts.items()):
+        fid = finding_for(chk, cname)
+        if fid:
+            chk.known(fid, n)
+    for inp, d, f in fails:
+        if finding_for(chk, f["class"]):
+            continue
+        report_failure(chk, drv, inp, d, f, seen_classes)
         if len(chk.violations) >= 5:
             break
     # (the model's single answer: a variant cannot differ from the original without the differential noticing, so the model is
     # compared on the original rendering only, above)
     seg = direct_segments(chk, drv, inputs)
+    if seg["table_names_as_before_repair_D30"]:
+        # `SqlFluffTable.of` still counts positions over the raw child list on this tree
+        if chk.finding("D30"):
+            chk.known("D30", seg["table_names_as_before_repair_D30"])
+        else:
+            chk.stale.append({"kind": "segments", "why": "SqlFluffTable.of reads table names positionally over raw segments "
+                              "(the model describes the repaired code D30)", "cases": seg["table_names_as_before_repair_D30"]})
     esc = direct_escape(chk, drv)
     spl = direct_split(chk, drv)
     sqlimpl.close_pool()
@@ -693,7 +728,8 @@ def run(chk):
         "statements": len(inputs), "jobs": len(jobs), "dialects": sorted({j["dialect"] for j in jobs}),
         "variants_by_rewrite_kind": dict(by_kind), "rejected_by_rewrite_kind": dict(rej_kind),
         "single_rewrites_eligible": singles_total, "single_rewrites_run": singles_run,
-        "distribution": st.as_dict(), "direct": {"segments": seg, "escape": esc, "split": spl},
+        "distribution": st.as_dict(), "failing_pairs_by_class": dict(class_counts),
+        "direct": {"segments": seg, "escape": esc, "split": spl},
         "exhaustive": False})
     chk.assumptions += [
         "sqlfluff's lexer and parser are not modelled: which rewrites are eligible is decided with the dialect's own parser, and a "
